@@ -111,6 +111,16 @@ def _save(d, sid, meta):
     for f in ("patch.diff", "demo.py", "notes.md"):
         if os.path.exists(os.path.join(d, f)):
             shutil.copy(os.path.join(d, f), os.path.join(dst, f))
+    old = os.path.join(dst, "meta.json")
+    if os.path.exists(old):
+        try:
+            prev = json.load(open(old))
+            hist = prev.get("history", [])
+            if prev.get("checks"):
+                hist.append({"repo_head": prev.get("repo_head"), "caught_by": prev.get("caught_by"), "checks": prev.get("checks"), "confirmed": prev.get("confirmed")})
+            meta["history"] = hist
+        except Exception:  # noqa: BLE001
+            pass
     if os.path.exists(os.path.join(d, "notes.md")):
         meta["needs"] = open(os.path.join(d, "notes.md")).read()[:1500]
     json.dump(meta, open(os.path.join(dst, "meta.json"), "w"), indent=1)
